@@ -62,6 +62,12 @@ type Table struct {
 	// the table itself: a damaged file (index entries without a row). Their
 	// index entries carry Row = -(position+1).
 	Phantom []Row `json:",omitempty"`
+	// PhantomShort (WITHOUT ROWID tables): the index entries of the phantom
+	// rows are also cut short: they hold the indexed columns only, not the
+	// primary key columns every entry ends with. (Not for rowid tables: there
+	// the last field of an entry is the rowid whatever it is - SQLite reads it
+	// so, too - and a shortened entry is not something a reader finds.)
+	PhantomShort bool `json:",omitempty"`
 }
 
 // MasterRow replaces a row of sqlite_master (hostile schema generation). If
@@ -280,6 +286,9 @@ func Build(spec *Image) (res *Built, err error) {
 					}
 					for _, k := range extra {
 						vs = append(vs, all[k])
+					}
+					if ri < 0 && t.PhantomShort {
+						vs = vs[:len(ix.Cols)]
 					}
 					bi.Entries = append(bi.Entries, Entry{Values: vs, Row: ri})
 				}
